@@ -7,8 +7,9 @@ GEN_FILES = ['IupacTables', 'Grammars']
 THEOREM_NAMES = ['ignore_skips', 'ignored_reaction_survives', 'reaction_missing_member', 'complement_sequence',
                  'complement_sequence_strong', 'non_iupac_rejected', 'failed_read_restores', 'sl_domain_length_mismatch',
                  'dl_domain_lengths', 'read_domains_sigma', 'read_sequences_sigma', 'read_strands_sigma',
-                 'read_scomplexes_sigma', 'read_kernels_sigma', 'read_duplicate_refused']
-THEOREMS = ['Dsd.C14.' + t for t in THEOREM_NAMES]
+                 'read_scomplexes_sigma', 'read_kernels_sigma', 'read_duplicate_refused',
+                 'read_pil_domains_text', 'read_pil_strands_text', 'read_pil_complexes_text', 'read_pil_kernels_text']
+THEOREMS = ['Dsd.C14.' + t for t in THEOREM_NAMES] + ['Dsd.TextSig.render_parses']
 ASSUMPTIONS = [
     'consistent systems are generated from an abstract model (domains with lengths or IUPAC sequences, strands / composite domains, '
     'complexes in kernel and strand notation, concentrations, macrostates named after a member, detailed and condensed reactions, '
@@ -32,7 +33,10 @@ MANIFEST = {
             'under its name, its registry object carries the minimal rotation as canonical form and all rotations as keys, its state the '
             'declared sequence / structure with rotate^turns(canon) = declared, its children are the dictionary\'s domain objects), '
             'read_kernels_sigma (plus kernel-notation complexes with optional concentration triple), read_duplicate_refused (the same '
-            'complex declared again under a new name is a SingletonError). Clause theorems: ignore_skips, ignored_reaction_survives, '
+            'complex declared again under a new name is a SingletonError). ON TEXT: render_parses (the canonical rendering of a declared '
+            'system parses - C13.document_rt + statement instances - to literally the token trees of the theorems above) and '
+            'read_pil_domains_text / _strands_text / _complexes_text / _kernels_text: parseDoc followed by readDoc on the rendered text '
+            'succeeds with the same conclusions, i.e. read_pil(render(system)) = system on the model. Clause theorems: ignore_skips, ignored_reaction_survives, '
             'reaction_missing_member, complement_sequence_strong, failed_read_restores, sl_domain_length_mismatch, dl_domain_lengths; '
             'component theorems of C01, C02, C12/C13 (kernel_rt, resolve_kernel_inverse) and C17. Macrostates, reactions and kernel strings '
             'that use composite domains have no end-to-end theorem yet: for them the property is decided on the real reader by an independent abstract model of PIL '
